@@ -67,7 +67,7 @@ func runC17(r *ev.Run) {
 	r.Rule = "stream 'sequence': case = PRNG sequence of Open / Close / second Close / failed Open (nil config, base directory under a regular file, directory already owned, directory listing failing after the lock was taken) / operations on closed handles on ONE directory, " +
 		"checked against a free|owned model: a second Open must fail and leave the directory (file set, LOCK bytes, segment bytes) untouched, a failed Open must leave no LOCK, after Close the next Open succeeds, every operation on a closed handle errors, a second Close errors and does not touch a new owner's LOCK. " +
 		"stream 'race': 2-8 goroutines race to Open the same directory (exactly one may win), and Add / search / Flush race with Close (each returns nil or an error, none panics or hangs, all fail afterwards). " +
-		"stream 'process': another process (cmd/storehelper) holds the directory / is refused while this process holds it. non-trivial = sequence contains a refused second Open, a failed Open after the lock and a stale-handle second Close while another owner is open; distinct by sequence digest"
+		"stream 'process': another process (cmd/storehelper) holds the directory / is refused while this process holds it. non-trivial = sequence contains a refused second Open, a failed Open after the lock and a stale-handle second Close while another owner is open; distinct by sequence digest Since the seed waves: streams 'concurrent-close' (spin-barrier Close calls), 'close-vs-compaction' (hand-over to the next owner while a compaction of the old handle is held), 'close-final-flush' (LOCK present and second Open refused while Close writes its final segment), directory spellings, a search object built before Close executed after it."
 	r.Assumptions = []string{"'unlistable directory' is produced by lowering RLIMIT_NOFILE so that the ReadDir after the LOCK creation gets EMFILE (root cannot be denied by chmod)", "watchdog 60 s per racing operation: firing = hang"}
 	p := storeParams{VecKind: "flat", Text: true, Meta: true, Dim: 2, Metric: comet.Euclidean, CompactionThreshold: 1000, MemtableSizeLimit: 1 << 20, FlushThreshold: 1 << 40}
 	n := r.Pick(200, 3000)
